@@ -113,6 +113,17 @@ theorem sort_sorted {α : Type} [Inhabited α] (lt : α → α → Bool)
   obtain ⟨r', e, _, s⟩ := sortVals_spec lt hasymm htrans vs
   rw [h] at e; cases e; exact s
 
+/-- instance used by the correspondence run: `List<Tagged>` (`<` compares the key only, a strict partial order on
+    the pairs).  For EVERY input the model's sort terminates, permutes the (key, tag) pairs and leaves the keys
+    ascending; which of several equal keys comes first is whatever the swap sequence produces — that arrangement is
+    compared with the implementation's on every run. -/
+theorem sort_tagged (vs : List (Int × Int)) :
+    ∃ r, sortVals ltKey vs = some r ∧ r.Perm vs ∧ r.Pairwise (fun a b => a.1 ≤ b.1) := by
+  obtain ⟨r, e, p, s⟩ := sortVals_spec ltKey
+    (by intro x y h; simp only [ltKey, decide_eq_true_eq, decide_eq_false_iff_not] at *; omega)
+    (by intro x y z h1 h2; simp only [ltKey, decide_eq_true_eq] at *; omega) vs
+  exact ⟨r, e, p, s.imp (by intro a b h; simp only [ltKey, decide_eq_false_iff_not] at h; omega)⟩
+
 /-- the partition and the recursion only ever touch the nodes `left … right` (frame), hence stay inside
     the list: everything outside the segment is unchanged and the length is preserved -/
 theorem sort_frame {α : Type} [Inhabited α] (lt : α → α → Bool)
